@@ -63,11 +63,14 @@ func runEnv(c EnvCase, dir string) error {
 		return c.Ranks[i] + "_" + levels[i]
 	}
 	has := func(i int) bool { return c.Mask&(1<<i) != 0 }
-	line := `printf '%s FOO=%%s OTHER=%%s TN=%%s\n' "$FOO" "$OTHER" "$TASK_NAME"`
-	task := gen.Map{{K: "command", V: gen.List{fmt.Sprintf(line, "CMD")}}}
+	// besides OTHER, the parent environment holds names that nothing overrides but that resemble names which are
+	// set on the way: the layered name in another case and as a prefix / suffix of other names, and case variants of
+	// the names the runner sets itself
+	line := `printf '%s FOO=%%s OTHER=%%s TN=%%s\n' "$FOO" "$OTHER" "$TASK_NAME"; printf '%s NEAR=%%s\n' "$foo,$Foo,$FOO_X,$XFOO,$task_name,$args"`
+	task := gen.Map{{K: "command", V: gen.List{fmt.Sprintf(line, "CMD", "CMD")}}}
 	if c.Hooks {
-		task = task.Set("before", gen.List{fmt.Sprintf(line, "BEFORE")})
-		task = task.Set("after", gen.List{fmt.Sprintf(line, "AFTER")})
+		task = task.Set("before", gen.List{fmt.Sprintf(line, "BEFORE", "BEFORE")})
+		task = task.Set("after", gen.List{fmt.Sprintf(line, "AFTER", "AFTER")})
 	}
 	cfg := gen.Map{}
 	if has(1) {
@@ -91,7 +94,8 @@ func runEnv(c EnvCase, dir string) error {
 	}
 	cfg = cfg.Set("pipelines", gen.Map{{K: "pp", V: gen.List{stage}}})
 	os.WriteFile(filepath.Join(dir, "t.yaml"), []byte(gen.YAML(cfg)), 0o644)
-	extra := []string{"OTHER=passthru value"}
+	extra := []string{"OTHER=passthru value", "foo=p1", "Foo=p2", "FOO_X=p3", "XFOO=p4", "task_name=p5", "args=p6"}
+	const nearWant = "NEAR=p1,p2,p3,p4,p5,p6\n"
 	if has(0) {
 		extra = append(extra, "FOO="+val(0))
 	}
@@ -128,6 +132,14 @@ func runEnv(c EnvCase, dir string) error {
 		return fmt.Errorf("levels %v defined: the command must see the value of %q (highest level present), untouched OTHER and TASK_NAME=tk: want line %q, stdout %q",
 			present(c.Mask), levels[top], want("CMD", top), r.Stdout)
 	}
+	for _, tag := range []string{"CMD", "BEFORE", "AFTER"} {
+		if n := strings.Count(r.Stdout, tag+" NEAR="); n != strings.Count(r.Stdout, tag+" "+nearWant) {
+			return fmt.Errorf("levels %v defined: parent variables that nothing overrides (foo, Foo, FOO_X, XFOO, task_name, args = p1..p6) must pass through unchanged: want every %q line to read %q, stdout %q", present(c.Mask), tag+" NEAR", nearWant, r.Stdout)
+		}
+	}
+	if !strings.Contains(r.Stdout, "CMD "+nearWant) {
+		return fmt.Errorf("levels %v defined: the command printed no NEAR line: stdout %q", present(c.Mask), r.Stdout)
+	}
 	if c.AsStage {
 		topDirect := -1
 		for i := 0; i < 6; i++ {
@@ -139,11 +151,11 @@ func runEnv(c EnvCase, dir string) error {
 		lines := strings.Split(strings.TrimSpace(r.Stdout), "\n")
 		last := ""
 		for _, l := range lines {
-			if strings.HasPrefix(l, "CMD ") {
+			if strings.HasPrefix(l, "CMD FOO=") {
 				last = l + "\n"
 			}
 		}
-		if strings.Count(r.Stdout, "CMD ") < 2 || last != want("CMD", topDirect) {
+		if strings.Count(r.Stdout, "CMD FOO=") < 2 || last != want("CMD", topDirect) {
 			lvl := "(nothing: FOO unset)"
 			if topDirect >= 0 {
 				lvl = levels[topDirect]
